@@ -97,7 +97,7 @@ Proof.
   { destruct r as [[f|]|e|].
     - destruct (mbap_some _ _ _ _ _ Hwf Hst Ep) as (-> & (k & -> & Hk & _) & _). exists k. repeat split; auto.
     - destruct (mbap_none _ _ _ _ Hwf Hst Ep) as (Hst' & _ & (k & -> & Hk & _) & _). exists k. repeat split; auto.
-    - destruct (mbap_err _ _ _ _ _ Hwf Hst Ep) as ((k & -> & Hk) & _). exists k. repeat split; auto.
+    - destruct (mbap_err _ _ _ _ _ Hwf Hst Ep) as ((k & -> & Hk & _) & _). exists k. repeat split; auto.
       rewrite (mbap_parse_eq _ _ Hwf Hst) in Ep. destruct (sparse st b) as [[s0 b0] r0] eqn:Es. inversion Ep; subst.
       destruct st as [|tx u n]; cbn [sparse] in Es.
       + destruct (Nat.ltb (buf_len b) 7); [inversion Es; subst; exact I|].
